@@ -54,3 +54,17 @@ def one_flag(flags) -> str:
         if f in flags:
             return f
     return sorted(flags)[0] if flags else ""
+
+
+def derived_local_capture(man: dict) -> str | None:
+    """C18's finding observed in the wild: a model has a constructed-array property `x` and a sibling property whose
+    python name is `x_item` / `x_item_data` (the loop variables the list template derives from `x`).  Returns the
+    captured identifier pattern or None."""
+    for m in (man.get("models") or {}).values():
+        py = {p["python_name"]: p for p in m["props"]}
+        for n, p in py.items():
+            if p["kind"] == "ListProperty" or (p["kind"] == "UnionProperty" and any(i["kind"] == "ListProperty" for i in p.get("inners") or [])):
+                for suffix in ("_item", "_item_data"):
+                    if n + suffix in py:
+                        return "list" + suffix
+    return None
